@@ -594,7 +594,11 @@ class C08(FloatSpec):
             'notch_noise/NotchFilterFactory, bandlimited_noise/-Factory, bandlimited_fir_noise, shaped_noise, '
             'load_wav/WavFileFactory) x calibration {flat, interp, point where the stimulus asks single frequencies} x '
             'level -20..120 x level step x polarity x seed x chunking. Non-trivial = the waveform is not all zero; '
-            'distinct = distinct case hash.')
+            'distinct = distinct case hash. Hardening: calibration tables in any order and container; level / fs / gain / '
+            'polarity as Python and NumPy ints and floats; wav normalisation None / pe / rms x int16 / int32 / uint8 / float32 x '
+            'positional / keyword / pathlib, played through next(); factories re-used after reset; the same request after '
+            'the caller overwrote the result; fixed gain changed after first use and set back; 0/1/2-sample stimuli, level '
+            '0 / -20 / 120, step 0; tones of 2^16..2^17 samples starting beyond sample 2^31 and 2^20-sample noise.')
 
     def gen(self, rng, tier):
         quick = tier == 'quick'
